@@ -5,6 +5,7 @@ import (
 	"flag"
 	"math/rand"
 	"path/filepath"
+	"sort"
 	"strings"
 
 	"github.com/go-openapi/loads"
@@ -70,6 +71,73 @@ func hasSelfRef(doc string) bool {
 }
 
 // driveFrame takes deep snapshots of every input before and after each call (C12).
+// requireDefaulted lists, in the required keyword of every object schema, some of the properties that have a default.
+func requireDefaulted(r *rand.Rand, s map[string]interface{}) {
+	if props, ok := s["properties"].(map[string]interface{}); ok {
+		var names []string
+		for k := range props {
+			names = append(names, k)
+		}
+		sort.Strings(names)
+		for _, k := range names {
+			ps, _ := props[k].(map[string]interface{})
+			if ps == nil {
+				continue
+			}
+			if _, has := ps["default"]; has && r.Intn(3) > 0 {
+				req, _ := s["required"].([]interface{})
+				s["required"] = append(req, k)
+			}
+			requireDefaulted(r, ps)
+		}
+	}
+	for _, k := range []string{"items", "additionalProperties", "not"} {
+		if sub, ok := s[k].(map[string]interface{}); ok {
+			requireDefaulted(r, sub)
+		}
+	}
+	for _, k := range []string{"allOf", "anyOf", "oneOf"} {
+		if l, ok := s[k].([]interface{}); ok {
+			for _, e := range l {
+				if sub, ok := e.(map[string]interface{}); ok {
+					requireDefaulted(r, sub)
+				}
+			}
+		}
+	}
+	if pp, ok := s["patternProperties"].(map[string]interface{}); ok {
+		for _, e := range pp {
+			if sub, ok := e.(map[string]interface{}); ok {
+				requireDefaulted(r, sub)
+			}
+		}
+	}
+}
+
+// dropMembers removes members of the objects of an instance at random, at every depth.
+func dropMembers(r *rand.Rand, v interface{}) interface{} {
+	switch x := v.(type) {
+	case map[string]interface{}:
+		var names []string
+		for k := range x {
+			names = append(names, k)
+		}
+		sort.Strings(names)
+		for _, k := range names {
+			if r.Intn(2) == 0 {
+				delete(x, k)
+			} else {
+				x[k] = dropMembers(r, x[k])
+			}
+		}
+	case []interface{}:
+		for i := range x {
+			x[i] = dropMembers(r, x[i])
+		}
+	}
+	return v
+}
+
 func driveFrame(args []string) error {
 	fs := flag.NewFlagSet("drive-frame", flag.ExitOnError)
 	seed := fs.Int64("seed", 1, "seed")
@@ -103,9 +171,16 @@ func driveFrame(args []string) error {
 		if i%4 == 0 { // duplicated names in required, unsorted enums
 			s["required"] = []interface{}{gen.Keys[r.Intn(3)], gen.Keys[r.Intn(3)], gen.Keys[r.Intn(len(gen.Keys))], gen.Keys[r.Intn(len(gen.Keys))]}
 		}
+		if i%2 == 0 { // required members that carry a default, at every level (and instances that omit them)
+			requireDefaulted(r, s)
+		}
 		st, _ := json.Marshal(s)
 		for j := 0; j < 2; j++ {
-			it, _ := json.Marshal(gen.InstFor(r, s, nil, 4, 0.15))
+			inst := gen.InstFor(r, s, nil, 4, 0.15)
+			if i%2 == 0 && j == 1 {
+				inst = dropMembers(r, inst)
+			}
+			it, _ := json.Marshal(inst)
 			for _, how := range []string{"AgainstSchema", "SchemaValidator.Validate", "SchemaValidator(recycle).Validate"} {
 				var sch spec.Schema
 				if json.Unmarshal(st, &sch) != nil {
